@@ -2,6 +2,7 @@ import PP.Driver.Codec
 import PP.Model.Values
 import PP.Model.Config
 import PP.Model.Std
+import PP.Model.Fields
 namespace PP
 open Sexp Pr
 
@@ -50,8 +51,20 @@ partial def decodeVal : Sexp → Option PyVal
     some (Std.showDeque (← decodeQual cls) (← decodeVals xs) (optNat' (← int? ml)))
   | .list (.atom "chainmap" :: cls :: fe :: maps) => do
     some (Std.showChainMap (← decodeQual cls) (← decodeVals maps) ((← nat? fe) == 1))
+  | .list (.atom "fields" :: cls :: fs) => do
+    -- an instance of a dataclass / attrs class: field definitions with current values; the model selects what is shown
+    some (Fields.instanceVal Fields.pyNe (← decodeQual cls) (← decodeFields fs))
   | .list [.atom "cmt", v, .list cs] => do some (.commented (← decodeVal v) (← pcharsOf cs))
   | .list [.atom "trl", v, .list cs] => do some (.trailing (← decodeVal v) (← pcharsOf cs))
+  | _ => none
+partial def decodeFields : List Sexp → Option (List Fields.Field)
+  | [] => some []
+  | .list [.list nm, rp, kind, d, v] :: r => do
+    let k ← nat? kind
+    let dflt ← (if k == 0 then some Fields.Dflt.missing
+                else if k == 1 then (decodeVal d).map Fields.Dflt.value
+                else (decodeVal d).map Fields.Dflt.factory)
+    some ({ name := ← nats? nm, repr := (← nat? rp) == 1, dflt := dflt, val := ← decodeVal v } :: (← decodeFields r))
   | _ => none
 partial def decodeVals : List Sexp → Option (List PyVal)
   | [] => some []
